@@ -272,3 +272,23 @@ func genC19(t *rapid.T) C19Case {
 }
 
 func TestC19(t *testing.T) { ReplayOrRapid(t, NewRun(t, "C19"), checkC19, genC19) }
+
+func (c C19Case) Sample() interface{} {
+	var ops []string
+	for _, o := range c.Ops {
+		s := ""
+		switch o.Kind {
+		case "write":
+			s = fmt.Sprintf("write %s/%s", c12Dirs[o.Dir][len("hidi-config/"):], o.File)
+		case "burst":
+			s = fmt.Sprintf("burst x%d from %s/%s", o.N, c12Dirs[o.Dir][len("hidi-config/"):], o.File)
+		default:
+			s = fmt.Sprintf("pause %dms", o.N)
+		}
+		if o.Delay > 0 {
+			s += fmt.Sprintf(" (consumer %dms late)", o.Delay)
+		}
+		ops = append(ops, s)
+	}
+	return map[string]interface{}{"ops": ops, "cancel": c.CancelWith}
+}
